@@ -421,7 +421,18 @@ SLOW = {("H2-ovo", (3, 2)), ("H2-ovo", (2, 3)), ("MMD-ovo", (2, 3))}
 SLOW_CLIP = {"H2-ova", "H2-ovo", "MMD-ovo"}
 
 
+# measured in the thorough tier: these jobs do not finish within their 40-minute budget (Hellinger's nested radicals and the
+# MMD-OvO pairwise radicals at the larger shapes); they are left out rather than left to time out.  Outside the claim.
+OUT_OF_REACH = {"H2-ova/clip/n2K2", "H2-ova/clip/n2K3", "H2-ovo/n3K3", "H2-ovo/n4K2", "H2-ovo/clip/n2K3", "MMD-ovo/n3K3", "MMD-ovo/n4K2", "MMD-ovo/n2K4",
+                "MMD-ovo/clip/n2K3", "long/H2-ova/N1031/rows3K2", "long/H2-ovo/N67/rows3K2", "long/H2-ovo/N131/rows3K2", "long/H2-ovo/N300/rows3K2",
+                "long/H2-ovo/N1031/rows3K2", "long/MMD-ovo/N131/rows3K2"}
+
+
 def jobs(tier):
+    return [j for j in _jobs(tier) if j["name"] not in OUT_OF_REACH]
+
+
+def _jobs(tier):
     shapes = QUICK_SHAPES if tier == "quick" else THOROUGH_SHAPES
     out = []
     q = tier == "quick"
@@ -465,6 +476,7 @@ def run(tier, seed, only=None, nproc=None):
                      "Wasserstein: unique dual optimum, d cost = sum u da + sum v db (envelope theorem) for the stubbed ot.emd2",
                      "exact real arithmetic"],
         bounds={"shapes(n,K)": QUICK_SHAPES if tier == "quick" else THOROUGH_SHAPES, "objectives": list(cg.CLASSES),
+                "out of reach (not run)": sorted(OUT_OF_REACH),
                 "long inputs": "N in {67, 300} (quick; Hellinger and MMD-ovo in thorough, +131, 1031) rows from 3 distinct symbolic rows, the last position holding a row of its own",
                 "clip job": "P in [0,1]^(n x K) rows summing to 1, all clipping patterns explored by forking"},
         stubs=["ot.emd2 -> uninterpreted (cost,u,v) with differential sum u da + sum v db"])
